@@ -33,6 +33,15 @@ def find_fns(prog, name_re, arg0_re=None, sig_re=None):
 
 def find_fn(prog, name_re, arg0_re=None, sig_re=None):
     fs = find_fns(prog, name_re, arg0_re, sig_re)
+    m = re.fullmatch(r'(?:\^|\(\^\|::\))(\w+)\$', name_re)
+    if not fs and m:
+        # a free function turned into an associated function of some type (same name, unique in the crate): the same role
+        alt = {f.raw: f for f in prog.by_last.get(m.group(1), []) if f.impl_span is not None and f.blocks and f.name.endswith('<impl>::' + m.group(1))
+               and prog.impl_header(f.impl_span)[0] is None}
+        if arg0_re is not None:
+            alt = {k: f for k, f in alt.items() if f.args and re.search(arg0_re, f.decl.get(f.args[0], ''))}
+        if len(alt) == 1:
+            return next(iter(alt.values()))
     if len(fs) != 1:
         raise NotFound(f'{name_re} (arg0 ~ {arg0_re}): {len(fs)} candidates: ' + '; '.join(f.name for f in fs[:6]))
     return fs[0]
@@ -59,6 +68,12 @@ def find_method(prog, type_name, method, trait=None, file_re=None):
         if f.raw not in seen and f.blocks:
             seen.add(f.raw)
             res.append(f)
+    if not res and trait is None:
+        # an associated function turned into a free function of the crate (same name): the same role
+        free = {f.raw: f for f in prog.by_last.get(method, []) if f.impl_span is None and f.blocks and re.fullmatch(r'(?:\w+::)*' + re.escape(method), f.name)
+                and (not file_re or re.search(file_re, f.body_span or ''))}
+        if len(free) == 1:
+            return next(iter(free.values()))
     if len(res) != 1:
         raise NotFound(f'{type_name}::{method} ({trait}): {len(res)} candidates')
     return res[0]
@@ -173,8 +188,14 @@ def find_closures_calling(prog, parent_fn, callee_re, transitive=False):
 
 def executor(crate, models=(), **kw):
     prog, enums = mirdump.program(crate)
+    # 'role:<pinned helper name>' = whatever function plays that helper's role in the current tree (NotFound -> inconclusive obligation)
+    models = [((role_fn(prog, p[5:], crate)[1] if isinstance(p, str) and p.startswith('role:') else p), f) for p, f in models]
     ms = [(re.compile(p) if isinstance(p, str) else p, f) for p, f in models] + MD.GLOBAL_MODELS
-    if os.environ.get('VERIF_TIER_EFFECTIVE') == 'thorough' and not kw.pop('fixed_bounds', False):
+    fixed = kw.pop('fixed_bounds', False)
+    if not fixed:
+        # slack for helper extraction: obligations state the inline depth that the pinned code needs; every run gets two more levels
+        kw['max_depth'] = kw.get('max_depth', 2) + int(os.environ.get('VERIF_EXTRA_DEPTH', '2'))
+    if os.environ.get('VERIF_TIER_EFFECTIVE') == 'thorough' and not fixed:
         # thorough tier: deeper inlining and one more loop unrolling than the quick tier (plus the cvc5 differential in solve())
         kw['max_depth'] = kw.get('max_depth', 2) + int(os.environ.get('VERIF_THOROUGH_DEPTH', '2'))
         kw['unroll'] = kw.get('unroll', 2) + int(os.environ.get('VERIF_THOROUGH_UNROLL', '1'))
@@ -457,6 +478,10 @@ def struct_fields(relpath, name):
             src = open(os.path.join(REPO, rp), errors='replace').read()
         except OSError:
             continue
+        import fnroles
+        tren = fnroles.type_renames(REPO)
+        if tren:
+            src = fnroles.apply_type_renames(src, tren)
         pairs = _parse_struct(src, name)
         if pairs is not None:
             return Fields(pairs, name, relpath)
@@ -468,8 +493,6 @@ def role_path(relpath, struct, role):
     or - after several fields were bundled into a nested struct of the same module - the field of that nested struct with
     the role's pinned type (same name preferred)"""
     fs = struct_fields(relpath, struct)
-    if role in fs:
-        return [(struct, fs.index(role))]
     global _roles
     if _roles is None:
         try:
@@ -477,6 +500,20 @@ def role_path(relpath, struct, role):
         except OSError:
             _roles = {}
     ty = (_roles.get(f'{relpath}::{struct}') or {}).get(role)
+    if role in fs:
+        i = fs.index(role)
+        cur = fs.types[i]
+        head = re.sub(r'<.*$', '', cur)
+        if ty is not None and cur != ty and re.fullmatch(r'\w+', head) and head != struct:
+            # the field kept its name but its value was wrapped in a struct of the module (newtype around the pinned type)
+            try:
+                nested = struct_fields(relpath, head)
+                cands = [j for j, t in enumerate(nested.types) if t == ty]
+                if len(cands) == 1:
+                    return [(struct, i), (head, cands[0])]
+            except NotFound:
+                pass
+        return [(struct, i)]
     if ty is None:
         raise NotFound(f'role {role} of {struct}: not a pinned field')
     for i, fty in enumerate(fs.types):
@@ -549,3 +586,93 @@ def struct_sym(name, ty, fields, values):
             raise NotFound(f'field {fname} of {ty}')
         s = s.with_ov(('f', fields.index(fname)), v)
     return s
+
+
+def z3vars(e, out=None, seen=None):
+    """the uninterpreted constants of a z3 term"""
+    out = [] if out is None else out
+    seen = set() if seen is None else seen
+    if not isinstance(e, z3.ExprRef) or e.get_id() in seen:
+        return out
+    seen.add(e.get_id())
+    if z3.is_const(e) and e.decl().kind() == z3.Z3_OP_UNINTERPRETED:
+        out.append(e)
+    for c in e.children():
+        z3vars(c, out, seen)
+    return out
+
+
+def upvar_base(ex, fn, i=0, name='gen'):
+    """value-name prefix of upvar i of a coroutine/closure body started with coroutine_start: `gen.i.*` when the upvar is a reference
+    (`&self`), `gen.i` when the value itself was moved in (`self`)"""
+    t = (ex.upvar_types(fn).get(i) or '').strip()
+    return f'{name}.{i}.*' if t.startswith('&') else f'{name}.{i}'
+
+
+def bind_args(fn, relpath, fixed, bindings):
+    """argument list for `fn`: `fixed` values first (self ...), then every further parameter takes the binding whose regex matches
+    its type; a parameter whose type is a struct of the module bundling several of the bindings (a `DialRequest { address, peer_id,
+    reply }` introduced for what used to be three parameters) is built field by field.  bindings: [(type_regex, value)]"""
+    args = list(fixed)
+    used = set()
+    for a in fn.args[len(fixed):]:
+        t = norm_type(fn.decl.get(a, ''))
+        hit = [i for i, (pat, _) in enumerate(bindings) if i not in used and re.search(pat, t)]
+        if hit:
+            used.add(hit[0])
+            args.append(bindings[hit[0]][1])
+            continue
+        head = re.match(r'&?(?:mut)?\s*(\w+)', t)
+        try:
+            fs = struct_fields(relpath, head.group(1)) if head else None
+        except NotFound:
+            fs = None
+        if fs is None:
+            raise NotFound(f'{fn.name}: parameter {a}: {t} matches none of {[b[0] for b in bindings]}')
+        vals = []
+        for fname, fty in zip(fs, fs.types):
+            h = [i for i, (pat, _) in enumerate(bindings) if i not in used and re.search(pat, norm_type(fty))]
+            if h:
+                used.add(h[0])
+                vals.append(bindings[h[0]][1])
+            else:
+                vals.append(Sym(f'{head.group(1)}.{fname}', fty))
+        args.append(Agg(head.group(1), None, tuple(vals)))
+    if len(used) != len(bindings):
+        raise NotFound(f'{fn.name}: no parameter for {[b[0] for i, b in enumerate(bindings) if i not in used]}')
+    return args
+
+
+def flatten_args(vals):
+    """call arguments with plain struct aggregates (parameter bundles) replaced by their fields, in order"""
+    out = []
+    for v in vals:
+        if isinstance(v, Agg) and v.variant is None and v.kind not in ('tuple', 'array'):
+            out.extend(flatten_args(v.fields))
+        else:
+            out.append(v)
+    return out
+
+
+def role_fn(prog, name, crate='anemo', scope_hint=None, required=True):
+    """(Fn, call-site regex) of the function playing the pinned helper `name`'s role (see fnroles.locate); NotFound when the tree has none -
+    an obligation whose oracle is phrased over that helper then is inconclusive, not violated"""
+    import fnroles
+    f = fnroles.locate(prog, crate, name, scope_hint)
+    if f is None:
+        if required:
+            raise NotFound(f'no function plays the role of the pinned helper `{name}` (not under that name, not with its signature elsewhere in the crate)')
+        return None, r'(^|::)' + re.escape(name) + '$'
+    return f, fnroles.call_re(prog, f)
+
+
+
+def require_methods(prog, *items):
+    """the oracle of the calling obligation is phrased over these crate-private methods ((type, method) pairs): when the tree has no
+    such method (the structure was dissolved / replaced by another interface) the obligation cannot be decided -> NotFound -> inconclusive"""
+    for ty, meth in items:
+        if meth not in methods_of(prog, ty):
+            try:
+                find_method(prog, ty, meth)
+            except NotFound:
+                raise NotFound(f'{ty}::{meth} does not exist in this tree: the obligation is phrased over it')
